@@ -190,7 +190,14 @@ def classify(fn, consts=None):
                     else:
                         out.append(("index", n, "slice-index-unbounded", "`%s`: the index is not shown to lie inside the slice" % _norm(n.get("text"))))
             else:
-                out.append(("index", n, "untriaged-index", "`%s` (type of the indexed value not established from the file)" % _norm(n.get("text"))))
+                iname = _base_name(idx) if idx.get("k") != "range" else None
+                iinit = env.get(iname, (None, None))[1] if iname else None
+                it = _norm(iinit.get("text") or A.text(iinit)) if isinstance(iinit, dict) else ""
+                itxt = _norm(idx.get("text") or A.text(idx)) if idx.get("k") != "range" else ""
+                if base and (it.endswith("%%%s.len()" % base) or itxt.endswith("%%%s.len()" % base)):
+                    out.append(("index", n, "ok", "index computed modulo len() of the indexed collection"))
+                else:
+                    out.append(("index", n, "untriaged-index", "`%s` (type of the indexed value not established from the file)" % _norm(n.get("text"))))
         elif k == "mcall" and n["method"] in ("unwrap", "expect", "unwrap_err", "expect_err"):
             out.append(("unwrap", n, "panics-on-none-or-err:" + n["method"], "`%s`" % _norm(n.get("text"))[:80]))
         elif k == "mcall" and n["method"] in POS_METHODS:
@@ -201,8 +208,14 @@ def classify(fn, consts=None):
             out.append(("index", n, "untriaged-index-in-macro", "`%s!(%s)`" % (n["name"], _norm(n.get("tokens"))[:60])))
         elif k == "binary" and n.get("op") in ("/", "%") and not (n["r"].get("k") == "lit" and n["r"].get("int")):
             r = _base_name(n["r"])
-            if not (r and consts and consts.get(r)):
-                out.append(("divide", n, "division-by-unchecked-value", "`%s`" % _norm(n.get("text"))[:80]))
+            rt = _norm(n["r"].get("text") or A.text(n["r"]))
+            mlen = re.match(r"^(\w+)\.len\(\)$", rt)
+            if r and consts and consts.get(r):
+                continue
+            if mlen and ("!(%s.is_empty())" % mlen.group(1) in _guards(fn, n) or "!%s.is_empty()" % mlen.group(1) in _guards(fn, n) or "%s.len()>0" % mlen.group(1) in _guards(fn, n)):
+                out.append(("divide", n, "ok", "divisor is len() of a collection that the enclosing branch shows to be non-empty"))
+                continue
+            out.append(("divide", n, "division-by-unchecked-value", "`%s`" % _norm(n.get("text"))[:80]))
     return out
 
 
